@@ -1,5 +1,33 @@
-use serde_json::Value;
+use crate::ops::{b, s};
+use serde_json::{json, Value};
+use text_utils::{edit, text};
 
-pub fn dispatch(op: &str, _req: &Value) -> Result<Value, String> {
-    Err(format!("unknown op {op}"))
+pub fn dispatch(op: &str, req: &Value) -> Result<Value, String> {
+    match op {
+        "match_words" => {
+            let (m, la, lb) = text::match_words(&s(req, "a")?, &s(req, "b")?, b(req, "ic")?);
+            Ok(json!([m, la, lb]))
+        }
+        "match_words_rel" => {
+            // words are single letters a.. / A..; relation given as a boolean matrix
+            let rel: Vec<Vec<bool>> = req.get("m").and_then(|v| v.as_array()).ok_or("missing m")?
+                .iter().map(|r| r.as_array().unwrap().iter().map(|x| x.as_bool().unwrap()).collect()).collect();
+            let f = |x: &str, y: &str| {
+                let i = (x.as_bytes()[0] - b'a') as usize;
+                let j = (y.as_bytes()[0] - b'A') as usize;
+                rel[i][j]
+            };
+            let (m, la, lb) = text::match_words_with(&s(req, "a")?, &s(req, "b")?, f);
+            Ok(json!([m, la, lb]))
+        }
+        "edited_words" => {
+            let (ea, eb) = edit::edited_words(&s(req, "a")?, &s(req, "b")?);
+            let mut ea: Vec<usize> = ea.into_iter().collect();
+            let mut eb: Vec<usize> = eb.into_iter().collect();
+            ea.sort();
+            eb.sort();
+            Ok(json!([ea, eb]))
+        }
+        _ => crate::ops5::dispatch(op, req),
+    }
 }
